@@ -11,7 +11,7 @@ from mpsa.match import Scope, is_name, is_none, local_ctor, method_of, unwrap_aw
 from mpsa.report import Checker
 
 from . import server
-from .common import SERVLET, WORKER, build_cfg, make_fallible
+from .common import SERVLET, WORKER, build_cfg, make_fallible, tuple_item
 from .fifo import QUEUE_CTORS
 from .fresh import fresh_chain
 
@@ -60,8 +60,9 @@ def message_puts(cfg: CFG):
             r, me = method_of(c)
             if me in ('put', 'put_nowait') and r is not None and c.args:
                 item = c.args[0]
-                if isinstance(item, ast.Tuple) and len(item.elts) == 2:
-                    out.append((n, c, item))
+                resolved = tuple_item(cfg, n, item)
+                if resolved is not None:
+                    out.append((n, c, resolved))
                 elif isinstance(item, ast.Name):
                     out.append((n, c, item))
     return out
